@@ -90,6 +90,14 @@ CONTENTS = {
     "err-none": [],                                                             # no <error> child at all
 }
 ERROR_CONTENTS = sorted(CONTENTS)
+# result replies to a contact sync, written the other ways the <sync> child can be: a chunk that is not flagged as
+# the last one, no flag at all, a later index (each parsable by the reply-entity parser).  They REPLACE the default result children.
+_USER = ("in", {}, [("user", {"jid": JID}, b"+4915100000001")])
+SYNC_CONTENTS = {
+    "sync-last-false": ("sync", {"index": "0", "last": "false", "sid": "1", "version": "1"}, [_USER]),
+    "sync-no-last": ("sync", {"index": "0", "sid": "1", "version": "1"}, [_USER]),
+    "sync-index-3": ("sync", {"index": "3", "last": "false", "sid": "1", "version": "1"}, [_USER]),
+}
 RESULT_CONTENTS = ["err-backoff-3600", "err-only-backoff", "err-two-plain-backoff"]   # malformed but possible
 
 
@@ -102,7 +110,17 @@ def unparsable(origin, kind, typ, content):
     return origin == "app" or kind == "libping"
 
 
+def _tree(t):
+    tag, attrs = t[0], t[1]
+    rest = t[2] if len(t) > 2 else None
+    if isinstance(rest, bytes):
+        return N(tag, dict(attrs), None, rest)
+    return N(tag, dict(attrs), [_tree(c) for c in (rest or [])])
+
+
 def content_children(content):
+    if content in SYNC_CONTENTS:
+        return [_tree(SYNC_CONTENTS[content])]
     return [N(tag, dict(attrs)) for tag, attrs in CONTENTS[content]]
 SHAPES = ["plain", "sync", "sping"]
 # layers, in the order of the Coq `layer` constructors
@@ -492,7 +510,9 @@ class Rig(object):
                     attrs["from"] = JID if req[1] == "lastseen" else GJID
             elif shape == "sync":
                 children = result_children("sync")
-            if content:
+            if content in SYNC_CONTENTS:
+                children = content_children(content)
+            elif content:
                 children = children + content_children(content)
         elif content:
             children = content_children(content)
